@@ -210,7 +210,7 @@ def call_contract(ex, st, cs, node):
             exs.pc.append(g)
             # whatever the callee may modify is unknown after a raise, unless
             # the callee states an exceptional postcondition
-            post_e = _havoc_env(ex, cs, env, mods)
+            post_e = _havoc_env(ex, cs, env, mods, exs)
             _assume_post(ex, exs, cs, env, post_e, None,
                          cs.get('exc_ensures', {}).get(exc, []))
             _write_back(ex, exs, cs, post_e, mods, anodes, recv_path)
@@ -219,9 +219,11 @@ def call_contract(ex, st, cs, node):
             st.assume(z3.Not(c))
 
     # normal return
-    post_env = _havoc_env(ex, cs, env, mods)
+    post_env = _havoc_env(ex, cs, env, mods, st)
     rty = cs.get('returns')
     result = fresh(rty, 'ret_' + cs['short']) if rty is not None else NONE
+    for f in ex.wf(result):
+        st.assume(f)
     _assume_post(ex, st, cs, env, post_env, result, cs.get('ensures', []))
     _write_back(ex, st, cs, post_env, mods, anodes, recv_path)
     return result
@@ -237,13 +239,16 @@ def _root_type(cs, root):
     return cs['params'][root]
 
 
-def _havoc_env(ex, cs, env, mods):
+def _havoc_env(ex, cs, env, mods, st=None):
     post = dict(env)
     for m in mods:
         ty = _root_type(cs, m)
         if isinstance(ty, TUnion):
             ty = env[m].ty
         post[m] = fresh(ty, m.replace('.', '_'))
+        if st is not None:
+            for f in ex.wf(post[m]):
+                st.assume(f)
     return post
 
 
@@ -317,12 +322,26 @@ def _sp_old(ex, node, st):
         raise SpecError('old() outside a two-state context')
     sub = st.fork()
     sub.guards = list(st.guards)
-    q = getattr(st, 'qvars', None) or {}
+    q = st.qvars or {}
     sub.env = dict(st.old)
     sub.env.update(q)
     sub.bound = dict()
     sub.qvars = q
     return ex.ev(node.args[0], sub)
+
+
+def _sp_at_head(ex, node, st):
+    """at_head('1', e): value of e at the head of loop 1 in the current
+    iteration (after havoc), usable in invariants of nested loops"""
+    from .symexec import Ref, STALE
+    ordn = node.args[0].value
+    if ordn not in st.heads:
+        raise SpecError('at_head(%r): not inside that loop' % ordn)
+    sub = st.fork()
+    sub.env = dict(st.heads[ordn])
+    sub.env.update(st.qvars)
+    sub.bound = dict()
+    return ex.ev(node.args[1], sub)
 
 
 def _sp_implies(ex, node, st):
@@ -420,7 +439,7 @@ def _sp_lookup(ex, node, st):
     return ex.subscript(m, k, st)
 
 
-_SPEC_PRIMS = {'old': _sp_old, 'implies': _sp_implies, 'iff': _sp_iff,
+_SPEC_PRIMS = {'old': _sp_old, 'at_head': _sp_at_head, 'implies': _sp_implies, 'iff': _sp_iff,
                'forall': _sp_forall, 'exists': _sp_exists,
                'bound': _sp_bound, 'is_some': _sp_some, 'val': _sp_val,
                'ite': _sp_ite, 'indom': _sp_domain, 'at': _sp_lookup,
@@ -971,11 +990,11 @@ def call_method(ex, node, st):
                                     % (rty, key.py))
             fty = rty.fields[key.py]
             v = Val(fty, rty.get(recv.term, key.py))
-            if isinstance(fty, TOpt) and \
-               key.py in ex.reg.optional_keys.get(rty.name, ()) and \
-               dflt.ty != TNone:
+            if isinstance(fty, TOpt) and dflt.ty != TNone:
                 # absent key (modelled as None) -> default
                 d = dflt
+                if isinstance(d, (PyDict, PyTuple)):
+                    d = coerce(d, fty.elem)
                 try:
                     ty = join_ty(fty.elem, d.ty)
                     return Val(ty, z3.If(fty.is_none(v.term),
